@@ -62,6 +62,16 @@ def gconv(api, rng, alpha, nonempty_prefix):
                 tuple(rstr(rng, alpha, 1, 5) for _ in range(rng.randint(1, 2))) if rng.random() < 0.45 else (),
                 rstr(rng, alpha, 0, 6) if rng.random() < 0.5 else None,
             ))
+        if rng.random() < 0.1 and recs:
+            # two records whose canonical prefixes differ only by letter case (GO / go, Straße / STRASSE): different
+            # strings, different records - every written format keeps both (seed C14-U: an export keyed on casefold())
+            r0 = recs[0]
+            tw = next((x for x in (r0.prefix.swapcase(), r0.prefix.upper(), r0.prefix.lower(), "STRASSE" if r0.prefix == "Straße" else None)
+                       if x and x != r0.prefix), None)
+            if tw is None:
+                recs[0] = r0 = r0._replace(prefix="Straße" if nonempty_prefix or True else r0.prefix)
+                tw = "STRASSE"
+            recs.append(spec.Rec(tw, rstr(rng, alpha, 1, 5) + "~tw", (), (), None))
         if spec.is_unique(recs) and not any(spec.self_clash(r) for r in recs) and len({x for r in recs for x in spec.all_p(r)}) == sum(len(spec.all_p(r)) for r in recs) \
                 and len({x for r in recs for x in spec.all_u(r)}) == sum(len(spec.all_u(r)) for r in recs):
             if rng.random() < 0.06:
